@@ -122,7 +122,7 @@ Theorem C07_more_fuel_same_result :
 Proof. exact @path_fuel_mono. Qed.
 
 (* FINDING F12a ("path() always terminates" is false): clf.alpha = 0 passes validation, all other
-   arguments in range, an oracle that does satisfy the drop hypothesis of the termination theorem —
+   arguments in range, an oracle that does satisfy the drop condition of the termination theorem —
    and the machine is still running after every amount of fuel, alpha still 0 *)
 Theorem C07_alpha_zero_diverges_refuted : exists (a : Args R) (orc : Oracle R) (B : R),
   a_alpha a = 0%R /\ (1 < a_mult a)%R /\ (0 < a_minf a < Z.of_nat (a_d a))%Z /\ (0 < a_patience a)%Z /\ 1 <= a_max_iter a /\
@@ -146,6 +146,14 @@ Theorem C07_unbound_exactly :
   (guard R a (ob_nsel (or_init orc)) = false -> path o R a orc fuel = Returned (init_state a orc) false).
 Proof. exact @unbound_exactly. Qed.
 
+(* path() wrappers: with restore_best_weights on a non-dynamic model the estimator ends with exactly the
+   returned best weights; otherwise it keeps the last trained weights (and warns when restore meets dynamic) *)
+Theorem C07_restore_rule : forall (T : Type) (restore dynamic : bool) (st : St T),
+  (restore = true -> dynamic = false -> weights_after restore dynamic st = Some (s_bidx st)) /\
+  (restore = false \/ dynamic = true -> weights_after restore dynamic st = None) /\
+  (wrapper_warn_restore_dynamic restore dynamic = true <-> restore = true /\ dynamic = true).
+Proof. exact restore_rule. Qed.
+
 (* non-vacuity: a concrete three-step run (computable integer instance) returns, keeps the weights of
    step 1, and over R a run with clf.alpha = 1/2 on the witness oracle returns as well *)
 Example C07_nonvacuous :
@@ -167,3 +175,4 @@ Print Assumptions C07_more_fuel_same_result.
 Print Assumptions C07_alpha_zero_diverges_refuted.
 Print Assumptions C07_max_patience_zero_unbound_refuted.
 Print Assumptions C07_unbound_exactly.
+Print Assumptions C07_restore_rule.
